@@ -290,6 +290,8 @@ def replay_model(kind: str, cfg: Any, model: Dict[str, Any]) -> Dict[str, Any]:
                 got.append(bool(dev.read_bit()))
             except IOReadOnEOF:
                 got.append('EOF')
+            except Exception as e:  # noqa: BLE001 - a foreign exception from a read is an observation, not a harness error
+                got.append(f'{type(e).__name__} raised')
         want = [bool((data[i // 8] >> (i % 8)) & 1) for i in range(8 * L)] + ['EOF', 'EOF']
         return {'differs': got != want, 'got': got, 'want': want, 'model': model}
     if kind == 'keyboard':
